@@ -65,6 +65,14 @@ func (t *c17Both) StreamableRun(ctx context.Context, args string, opts ...tool.O
 type c17StreamOnly struct{ c17Base }
 
 func (t *c17StreamOnly) StreamableRun(ctx context.Context, args string, opts ...tool.Option) (*schema.StreamReader[string], error) {
+	if t.b.fail[GetToolCallID(ctx)] == 3 {
+		// fails in the middle of its output: an error item after the first chunk
+		sr, sw := schema.Pipe[string](2)
+		sw.Send(c17P(t.name, args), nil)
+		sw.Send("", c17Err)
+		sw.Close()
+		return sr, nil
+	}
 	if err := t.pre(ctx); err != nil {
 		return nil, err
 	}
@@ -250,4 +258,136 @@ func VerifC17SchedStream() {
 func VerifC17GraphSchedFaults() {
 	c17FixedNames = true
 	c17Run(2+vtier(), false, true, true, true, true)
+}
+
+// a streaming tool that fails in the middle of its stream makes the streamed call fail with that tool's error
+func VerifC17MidStreamFailure() {
+	ctx := context.Background()
+	vcfg("fifo", 1)
+	vcfg("selectfirst", 1)
+	b := &c17Behav{fail: map[string]int{}}
+	tn, err := NewToolNode(ctx, &ToolsNodeConfig{Tools: []tool.BaseTool{&c17Both{c17Base{"t0", b}}, &c17StreamOnly{c17Base{"t1", b}}}})
+	vassert(err == nil, "tools node is created")
+	n := 1 + vchoose("n", 2)
+	msg := &schema.Message{Role: schema.Assistant}
+	failing := vchoose("failing", n)
+	for i := 0; i < n; i++ {
+		id := []string{"id0", "id1"}[i]
+		name := "t0"
+		if i == failing {
+			name = "t1"
+			b.fail[id] = 3
+		}
+		msg.ToolCalls = append(msg.ToolCalls, schema.ToolCall{ID: id, Function: schema.FunctionCall{Name: name, Arguments: "x"}})
+	}
+	var rerr error
+	if vchoose("graph", 2) == 1 {
+		g := NewGraph[*schema.Message, []*schema.Message]()
+		_ = g.AddToolsNode("tools", tn)
+		_ = g.AddLambdaNode("after", InvokableLambda(func(ctx context.Context, in []*schema.Message) ([]*schema.Message, error) { return in, nil }))
+		_ = g.AddEdge(START, "tools")
+		_ = g.AddEdge("tools", "after")
+		_ = g.AddEdge("after", END)
+		r, cerr := g.Compile(ctx)
+		vassert(cerr == nil, "graph compiles")
+		sr, e := r.Stream(ctx, msg)
+		rerr = e
+		if e == nil {
+			for k := 0; k < 8; k++ {
+				_, e := sr.Recv()
+				if e == io.EOF {
+					break
+				}
+				if e != nil {
+					rerr = e
+					break
+				}
+			}
+			sr.Close()
+		}
+	} else {
+		sr, e := tn.Stream(ctx, msg)
+		rerr = e
+		if e == nil {
+			for k := 0; k < 8; k++ {
+				_, e := sr.Recv()
+				if e == io.EOF {
+					break
+				}
+				if e != nil {
+					rerr = e
+					break
+				}
+			}
+			sr.Close()
+		}
+	}
+	vquiesce()
+	vassert(rerr != nil && errors.Is(rerr, c17Err), "a tool failing in the middle of its stream makes the streamed call fail with that tool's error")
+}
+
+// five calls: the tool of the last call finishes first (its stream ends before the others deliver)
+func VerifC17FiveCalls() {
+	ctx := context.Background()
+	vcfg("fifo", 1)
+	gate := make(chan struct{})
+	late := func(name string) tool.BaseTool {
+		return &c17Gated{c17Base{name, &c17Behav{fail: map[string]int{}}}, gate}
+	}
+	tn, err := NewToolNode(ctx, &ToolsNodeConfig{Tools: []tool.BaseTool{late("t0")}})
+	vassert(err == nil, "tools node is created")
+	msg := &schema.Message{Role: schema.Assistant}
+	first := vchoose("first", 5) // the call whose stream ends first
+	for i := 0; i < 5; i++ {
+		args := "late"
+		if i == first {
+			args = "now"
+		}
+		msg.ToolCalls = append(msg.ToolCalls, schema.ToolCall{ID: []string{"id0", "id1", "id2", "id3", "id4"}[i], Function: schema.FunctionCall{Name: "t0", Arguments: args}})
+	}
+	sr, e := tn.Stream(ctx, msg)
+	vassert(e == nil, "stream call starts")
+	got := make([]string, 5)
+	k := 0
+	for ; k < 16; k++ {
+		if k == 1 {
+			close(gate) // the other tools deliver only after the first answer has been received
+		}
+		ms, e := sr.Recv()
+		if e == io.EOF {
+			break
+		}
+		vassert(e == nil, "no error item")
+		for i, m := range ms {
+			if m != nil {
+				got[i] += m.Content
+			}
+		}
+	}
+	sr.Close()
+	vquiesce()
+	for i := 0; i < 5; i++ {
+		want := "late-done"
+		if i == first {
+			want = "now-done"
+		}
+		vassert(got[i] == want, "every one of five calls is answered in the streamed form whatever the completion order")
+	}
+}
+
+type c17Gated struct {
+	c17Base
+	gate chan struct{}
+}
+
+func (t *c17Gated) StreamableRun(ctx context.Context, args string, opts ...tool.Option) (*schema.StreamReader[string], error) {
+	sr, sw := schema.Pipe[string](1)
+	go func() {
+		if args != "now" {
+			<-t.gate
+		}
+		sw.Send(args+"-done", nil)
+		sw.Close()
+	}()
+	return sr, nil
 }
